@@ -102,6 +102,13 @@ Definition reln (a b : name) : Z := fst (fst (fullcompare a b)).
 Definition common (a b : name) : Z := snd (fullcompare a b).
 Definition name_eqb (a b : name) : bool := order a b =? 0.
 
+(* rich comparisons (name.py:582-616): each tests the sign of fullcompare(other)[1] *)
+Definition name_ne (a b : name) : bool := negb (order a b =? 0).
+Definition name_lt (a b : name) : bool := order a b <? 0.
+Definition name_le (a b : name) : bool := order a b <=? 0.
+Definition name_ge (a b : name) : bool := order a b >=? 0.
+Definition name_gt (a b : name) : bool := order a b >? 0.
+
 Definition is_subdomain (a b : name) : bool :=
   let r := reln a b in (r =? rSUB) || (r =? rEQUAL).
 Definition is_superdomain (a b : name) : bool :=
@@ -648,6 +655,11 @@ Definition run (c : obs) : obs :=
   | L [I 16; L a; o; I rel] =>
       match name_of_obs a, oname_of_obs o with
       | Some a, Some o => obs_of_res obs_of_name (choose_relativity a o (rel =? 1))
+      | _, _ => E eBadCase end
+  | L [I 19; L a; L b] =>
+      match name_of_obs a, name_of_obs b with
+      | Some a, Some b => L [ob (name_eqb a b); ob (name_ne a b); ob (name_lt a b); ob (name_le a b);
+                             ob (name_ge a b); ob (name_gt a b); ob (name_hash a =? name_hash b)]
       | _, _ => E eBadCase end
   | L [I 18; B t; o] =>
       match oname_of_obs o with
